@@ -482,12 +482,17 @@ struct Ctx {
     trail: Vec<Decision>,
     pos: usize,
     declared: Vec<(String, usize)>,
+    aux_declared: Vec<(String, usize)>,
+    aux_counter: u64,
     assumed_depth: Vec<usize>,
     decisions_this_path: u64,
     max_decisions: u64,
     checks_this_path: u64,
     checks_total: u64,
     violations: Vec<Violation>,
+    violations_total: u64,
+    keep_per_label: usize,
+    pending: Vec<(String, Rc<str>)>,
     notes: Vec<String>,
     last_panic: Option<String>,
     in_explore: bool,
@@ -503,12 +508,17 @@ impl Ctx {
             trail: vec![],
             pos: 0,
             declared: vec![],
+            aux_declared: vec![],
+            aux_counter: 0,
             assumed_depth: vec![],
             decisions_this_path: 0,
             max_decisions: 1_000_000,
             checks_this_path: 0,
             checks_total: 0,
             violations: vec![],
+            violations_total: 0,
+            keep_per_label: 2,
+            pending: vec![],
             notes: vec![],
             last_panic: None,
             in_explore: false,
@@ -518,6 +528,8 @@ impl Ctx {
 
 thread_local! {
     static CTX: RefCell<Ctx> = RefCell::new(Ctx::new());
+    static LAST_PANIC: RefCell<Option<String>> = const { RefCell::new(None) };
+    static QUIET: std::cell::Cell<bool> = const { std::cell::Cell::new(false) };
 }
 
 /// Marker payload for controlled path termination.
@@ -546,6 +558,42 @@ pub fn fresh_int(name: &str, lo: i64, hi: i64) -> SymInt {
         }
     });
     SymInt::Term(mk_term(name.to_string()))
+}
+
+/// Give a large term a name (a solver-side definition scoped like an input variable), so that it
+/// can be used many times without being duplicated textually. Semantically the identity.
+pub fn name_bool(b: SymBool) -> SymBool {
+    match b {
+        SymBool::Const(_) => b,
+        _ => SymBool::Term(mk_term(define_aux(&b.text(), "Bool"))),
+    }
+}
+
+/// See [`name_bool`].
+pub fn name_int(v: SymInt) -> SymInt {
+    match v {
+        SymInt::Const(_) => v,
+        _ => SymInt::Term(mk_term(define_aux(&v.text(), "Int"))),
+    }
+}
+
+fn define_aux(text: &str, sort: &str) -> String {
+    CTX.with(|c| {
+        let mut c = c.borrow_mut();
+        if c.replay.is_some() {
+            panic!("vrt: symbolic definition in replay mode");
+        }
+        let name = format!("aux!{}", c.aux_counter);
+        c.aux_counter += 1;
+        let level = c.pos;
+        if !c.aux_declared.iter().any(|(n, _)| n == &name) {
+            c.aux_declared.push((name.clone(), level));
+            let s = c.solver.as_mut().unwrap();
+            s.send(&format!("(declare-const {name} {sort})"));
+            s.send(&format!("(assert (= {name} {text}))"));
+        }
+        name
+    })
 }
 
 /// Branch on a symbolic boolean.
@@ -669,46 +717,79 @@ pub fn assume(b: SymBool) {
 }
 
 /// Assert that `prop` holds for every input on the current path.
+///
+/// Checks are collected and decided together when the path ends (one solver query for the
+/// conjunction under the final path condition; on failure each check is decided separately). This
+/// is equivalent to deciding each check where it is stated because every extension of the current
+/// prefix is explored.
 pub fn check(label: &str, prop: SymBool) {
-    // While the prefix of the decision trail is being replayed, this check was already decided on
-    // an earlier path under exactly the same path condition.
-    let replaying_prefix = CTX.with(|c| {
+    let text = match prop {
+        SymBool::Const(true) => None,
+        _ => Some(prop.text()),
+    };
+    CTX.with(|c| {
         let mut c = c.borrow_mut();
-        if c.replay.is_none() && c.pos < c.trail.len() {
-            return true;
-        }
         c.checks_this_path += 1;
         c.checks_total += 1;
-        false
+        if let Some(text) = text {
+            c.pending.push((label.to_string(), text));
+        }
     });
-    if replaying_prefix {
+}
+
+/// Decide all pending checks of the current path. Called by the driver at the end of each path.
+fn flush_checks() {
+    let pending: Vec<(String, Rc<str>)> = CTX.with(|c| std::mem::take(&mut c.borrow_mut().pending));
+    if pending.is_empty() {
         return;
     }
-    match prop {
-        SymBool::Const(true) => {}
-        SymBool::Const(false) => record_violation("check", label, "property is false on this path", true),
-        _ => {
-            let neg = prop.not().text();
-            let (sat, model) = CTX.with(|c| {
-                let mut c = c.borrow_mut();
-                if c.replay.is_some() {
-                    panic!("vrt: symbolic check in replay mode");
-                }
-                let vars: Vec<String> = c.declared.iter().map(|(n, _)| n.clone()).collect();
-                let s = c.solver.as_mut().unwrap();
-                s.send("(push 1)");
-                s.send(&format!("(assert {neg})"));
-                let r = s.check_sat();
-                let model = if r == Sat::Sat { s.get_values(&vars) } else { vec![] };
-                s.send("(pop 1)");
-                (r, model)
-            });
-            match sat {
-                Sat::Unsat => {}
-                Sat::Sat => record_violation_model("check", label, "property can be false", model),
-                Sat::Unknown => {
-                    CTX.with(|c| c.borrow_mut().solver.as_mut().unwrap().errors.push(format!("unknown on check {label}")));
-                }
+    let replaying = CTX.with(|c| c.borrow().replay.is_some());
+    if replaying {
+        for (label, text) in pending {
+            match &*text {
+                "true" => {}
+                "false" => record_violation_model("check", &label, "property is false on this path", vec![]),
+                other => panic!("vrt: symbolic check in replay mode: {other}"),
+            }
+        }
+        return;
+    }
+    // one query for the conjunction
+    let all_hold = CTX.with(|c| {
+        let mut c = c.borrow_mut();
+        let s = c.solver.as_mut().unwrap();
+        let mut conj = String::from("(and true");
+        for (_, t) in &pending {
+            conj.push(' ');
+            conj.push_str(t);
+        }
+        conj.push(')');
+        s.send("(push 1)");
+        s.send(&format!("(assert (not {conj}))"));
+        let r = s.check_sat();
+        s.send("(pop 1)");
+        r == Sat::Unsat
+    });
+    if all_hold {
+        return;
+    }
+    for (label, text) in pending {
+        let (sat, model) = CTX.with(|c| {
+            let mut c = c.borrow_mut();
+            let vars: Vec<String> = c.declared.iter().map(|(n, _)| n.clone()).collect();
+            let s = c.solver.as_mut().unwrap();
+            s.send("(push 1)");
+            s.send(&format!("(assert (not {text}))"));
+            let r = s.check_sat();
+            let model = if r == Sat::Sat { s.get_values(&vars) } else { vec![] };
+            s.send("(pop 1)");
+            (r, model)
+        });
+        match sat {
+            Sat::Unsat => {}
+            Sat::Sat => record_violation_model("check", &label, "property can be false", model),
+            Sat::Unknown => {
+                CTX.with(|c| c.borrow_mut().solver.as_mut().unwrap().errors.push(format!("unknown on check {label}")));
             }
         }
     }
@@ -746,6 +827,11 @@ fn record_violation_model(kind: &str, label: &str, msg: &str, model: Vec<(String
     let trail = current_trail();
     CTX.with(|c| {
         let mut c = c.borrow_mut();
+        c.violations_total += 1;
+        let same = c.violations.iter().filter(|v| v.kind == kind && v.label == label).count();
+        if same >= c.keep_per_label {
+            return;
+        }
         let notes = c.notes.join("; ");
         c.violations.push(Violation {
             kind: kind.to_string(),
@@ -782,7 +868,7 @@ pub struct Options {
 
 impl Default for Options {
     fn default() -> Self {
-        Options { max_paths: 200_000, max_decisions_per_path: 200_000, max_violations: 3, seed: 0, panics_are_violations: true }
+        Options { max_paths: 200_000, max_decisions_per_path: 200_000, max_violations: 100_000, seed: 0, panics_are_violations: true }
     }
 }
 
@@ -800,6 +886,7 @@ pub struct Report {
     pub max_depth: usize,
     pub exhaustive: bool,
     pub violations: Vec<Violation>,
+    pub violations_total: u64,
     pub errors: Vec<String>,
     pub samples: Vec<String>,
 }
@@ -810,7 +897,7 @@ fn install_quiet_hook() {
     ONCE.call_once(|| {
         let prev = panic::take_hook();
         panic::set_hook(Box::new(move |info| {
-            let quiet = CTX.with(|c| c.try_borrow().map(|c| c.in_explore).unwrap_or(true));
+            let quiet = QUIET.with(|q| q.get());
             if quiet {
                 if info.payload().downcast_ref::<PathAbort>().is_some() {
                     return;
@@ -823,11 +910,7 @@ fn install_quiet_hook() {
                     "<non-string panic payload>".to_string()
                 };
                 let loc = info.location().map(|l| format!("{}:{}", l.file(), l.line())).unwrap_or_default();
-                CTX.with(|c| {
-                    if let Ok(mut c) = c.try_borrow_mut() {
-                        c.last_panic = Some(format!("{msg} @ {loc}"));
-                    }
-                });
+                LAST_PANIC.with(|p| *p.borrow_mut() = Some(format!("{msg} @ {loc}")));
             } else {
                 prev(info);
             }
@@ -847,6 +930,7 @@ pub fn explore<F: Fn()>(name: &str, opts: &Options, f: F) -> Report {
         c.max_decisions = opts.max_decisions_per_path;
         c.in_explore = true;
     });
+    QUIET.with(|q| q.set(true));
     let mut exhausted = false;
     loop {
         // reset per-path state
@@ -855,8 +939,10 @@ pub fn explore<F: Fn()>(name: &str, opts: &Options, f: F) -> Report {
             c.terms.clear();
             c.intern.clear();
             c.pos = 0;
+            c.aux_counter = 0;
             c.decisions_this_path = 0;
             c.checks_this_path = 0;
+            c.pending.clear();
             c.notes.clear();
             c.last_panic = None;
         });
@@ -864,23 +950,36 @@ pub fn explore<F: Fn()>(name: &str, opts: &Options, f: F) -> Report {
         let res = panic::catch_unwind(AssertUnwindSafe(|| f()));
         rep.paths += 1;
         let mut path_kind = "ok";
+        // the trail of this path is complete: current position is its end
+        CTX.with(|c| {
+            let mut c = c.borrow_mut();
+            c.pos = c.trail.len();
+        });
         match res {
-            Ok(()) => rep.completed_paths += 1,
+            Ok(()) => {
+                rep.completed_paths += 1;
+                flush_checks();
+            }
             Err(payload) => {
                 if let Some(PathAbort(reason)) = payload.downcast_ref::<PathAbort>() {
                     rep.pruned += 1;
                     path_kind = "pruned";
+                    CTX.with(|c| c.borrow_mut().pending.clear());
                     if *reason != "assumption infeasible" && *reason != "assumption false" {
                         rep.errors.push(format!("path aborted: {reason}"));
                     }
                 } else {
                     rep.panics += 1;
                     path_kind = "panic";
-                    let msg = CTX.with(|c| c.borrow_mut().last_panic.take()).unwrap_or_else(|| "panic".into());
+                    let msg = LAST_PANIC.with(|p| p.borrow_mut().take()).unwrap_or_else(|| "panic".into());
                     if msg.starts_with("vrt:") || msg.contains("vrt-unsupported") {
                         rep.errors.push(format!("unsupported operation on a symbolic value: {msg}"));
-                    } else if opts.panics_are_violations {
-                        record_violation("panic", "no-panic", &msg, true);
+                    } else {
+                        // checks stated before the panic still hold or fail on this path
+                        flush_checks();
+                        if opts.panics_are_violations {
+                            record_violation("panic", "no-panic", &msg, true);
+                        }
                     }
                 }
             }
@@ -915,12 +1014,13 @@ pub fn explore<F: Fn()>(name: &str, opts: &Options, f: F) -> Report {
                 // variables declared at a deeper level than the surviving prefix are gone
                 let keep = if next.is_some() { depth_after - 1 } else { depth_after };
                 c.declared.retain(|(_, lvl)| *lvl <= keep);
+                c.aux_declared.retain(|(_, lvl)| *lvl <= keep);
                 if next.is_some() {
                     return true;
                 }
             }
         });
-        let nviol = CTX.with(|c| c.borrow().violations.len());
+        let nviol = CTX.with(|c| c.borrow().violations_total) as usize;
         if !more {
             exhausted = true;
             break;
@@ -943,8 +1043,10 @@ pub fn explore<F: Fn()>(name: &str, opts: &Options, f: F) -> Report {
         }
         rep.checks = c.checks_total;
         rep.violations = std::mem::take(&mut c.violations);
+        rep.violations_total = c.violations_total;
         c.trail.clear();
     });
+    QUIET.with(|q| q.set(false));
     rep.exhaustive = exhausted && rep.errors.is_empty();
     rep.wall_s = t0.elapsed().as_secs_f64();
     rep
@@ -961,19 +1063,24 @@ pub fn replay<F: Fn()>(name: &str, model: HashMap<String, i64>, f: F) -> Report 
         c.replay = Some(model);
         c.in_explore = true;
     });
+    QUIET.with(|q| q.set(true));
     let res = panic::catch_unwind(AssertUnwindSafe(|| f()));
     rep.paths = 1;
     match res {
-        Ok(()) => rep.completed_paths = 1,
+        Ok(()) => {
+            rep.completed_paths = 1;
+            flush_checks();
+        }
         Err(payload) => {
             if payload.downcast_ref::<PathAbort>().is_some() {
                 rep.pruned = 1;
             } else {
                 rep.panics = 1;
-                let msg = CTX.with(|c| c.borrow_mut().last_panic.take()).unwrap_or_else(|| "panic".into());
+                let msg = LAST_PANIC.with(|p| p.borrow_mut().take()).unwrap_or_else(|| "panic".into());
                 if msg.starts_with("vrt:") {
                     rep.errors.push(msg);
                 } else {
+                    flush_checks();
                     record_violation_model("panic", "no-panic", &msg, vec![]);
                 }
             }
@@ -984,8 +1091,10 @@ pub fn replay<F: Fn()>(name: &str, model: HashMap<String, i64>, f: F) -> Report 
         c.in_explore = false;
         rep.checks = c.checks_total;
         rep.violations = std::mem::take(&mut c.violations);
+        rep.violations_total = c.violations_total;
         c.replay = None;
     });
+    QUIET.with(|q| q.set(false));
     rep.exhaustive = false;
     rep.wall_s = t0.elapsed().as_secs_f64();
     rep
@@ -1031,7 +1140,7 @@ impl Report {
         let errs: Vec<String> = self.errors.iter().take(20).map(|e| format!("\"{}\"", json_escape(e))).collect();
         let samples: Vec<String> = self.samples.iter().map(|e| format!("\"{}\"", json_escape(e))).collect();
         format!(
-            "{{\"name\": \"{}\", \"paths\": {}, \"completed_paths\": {}, \"pruned\": {}, \"panics\": {}, \"queries\": {}, \"checks\": {}, \"solver_s\": {:.4}, \"wall_s\": {:.4}, \"max_depth\": {}, \"exhaustive\": {}, \"violations\": [{}], \"errors\": [{}], \"samples\": [{}]}}",
+            "{{\"name\": \"{}\", \"paths\": {}, \"completed_paths\": {}, \"pruned\": {}, \"panics\": {}, \"queries\": {}, \"checks\": {}, \"solver_s\": {:.4}, \"wall_s\": {:.4}, \"max_depth\": {}, \"exhaustive\": {}, \"violations_total\": {}, \"violations\": [{}], \"errors\": [{}], \"samples\": [{}]}}",
             json_escape(&self.name),
             self.paths,
             self.completed_paths,
@@ -1043,6 +1152,7 @@ impl Report {
             self.wall_s,
             self.max_depth,
             self.exhaustive,
+            self.violations_total,
             viol.join(", "),
             errs.join(", "),
             samples.join(", ")
